@@ -86,7 +86,10 @@ def run(res, f, tier):
             res.violation("C02|compose|%s" % m["kind"],
                           "node kind %s does not pass its sub-results to its operator as specified (operand order / result)" % m["kind"],
                           {"expected": sorted(miss_w - unex_w)[:4], "actual": sorted(unex_w - miss_w)[:4]})
+    import rewrite
+    rw_cov = rewrite.apply(res, f, "C02")
     res.coverage = {
+        "tree_rewrites": rw_cov,
         "explanation": "Tag-symbolic summaries of the %d operator functions reached from the evaluator were computed for every operand-tag tuple "
                        "(%d cells) and compared, after normalisation (checked-op == op, mirrored comparisons, commutative arguments, transparent "
                        "clone/ref/into), with the reviewed table spec/optable.json; the evaluator's dispatch rows give the operand wiring of all 47 node kinds."
